@@ -197,9 +197,14 @@ def reach_cache_key(k: int) -> int:
 # gives the bytes a process that never saw a would give.  Values are a finite list; the real lru needs concrete values.
 HVALS = [0.0, -0.0, 0, 1, 1.0, True, False, -1, -1.0, 2, 2.0, '0', '-0.0', '0.0', '1', '1.0', float('inf'), -float('inf'),
          255, 255.0, 128, 128.0]
+# naive date-times that differ only in 'fold' compare (and hash) equal but denote different instants where the local
+# clock is set back (F27); the check runs under a POSIX TZ rule with such a transition (no tz database needed)
+DST_TZ = 'CET-1CEST,M3.5.0,M10.5.0/3'
+HVALS = HVALS + [_datetime(2023, 10, 29, 2, 30, fold=0), _datetime(2023, 10, 29, 2, 30, fold=1),
+                 _datetime(2023, 6, 1, 12, 0, fold=0), _datetime(2023, 6, 1, 12, 0, fold=1)]
 HPAIRS = [(i, j) for i in range(len(HVALS)) for j in range(len(HVALS)) if i != j and HVALS[i] == HVALS[j]]
 N_HPAIRS = len(HPAIRS)
-HCODES = CODES + [RepC.FSINGL, RepC.UNORM, RepC.SNORM]
+HCODES = CODES + [RepC.FSINGL, RepC.UNORM, RepC.SNORM, RepC.DTIME]
 N_HCODES = len(HCODES)
 
 
@@ -222,6 +227,11 @@ def entry_history_check(ci, k):
     code = HCODES[ci]
     a, b = HVALS[i], HVALS[j]
     with untraced():
+        import os as _os
+        import time as _time
+        _tz = _os.environ.get('TZ')
+        _os.environ['TZ'] = DST_TZ
+        _time.tzset()
         _real_memos(True)
         try:
             def run(v):
@@ -237,6 +247,11 @@ def entry_history_check(ci, k):
             _clear_real()
         finally:
             _real_memos(False)
+            if _tz is None:
+                del _os.environ['TZ']
+            else:
+                _os.environ['TZ'] = _tz
+            _time.tzset()
     return 0 if after == fresh else 1
 
 
